@@ -735,7 +735,7 @@ Proof. intros H. destruct r; cbn; auto; (split; [auto|apply tab_frame_refl]). Qe
 Lemma bind_memory_inv v s image res off : VamInvB v [] [] -> let '(v', r) := bind_memory v s image res off in res_post v v' s r.
 Proof.
   intros HI. pose proof (VamMapStep2.bind_memory_inv c Hc Hmax Hlarge ms0 v s image res off (vb_m _ _ _ HI)) as P.
-  unfold bind_memory in *. destruct (res =? 0); [apply res_post_refl; auto|]. destruct (negb _); [apply res_post_refl; auto|].
+  unfold bind_memory in *. destruct (res =? 0); [apply res_post_refl; auto|]. destruct (negb _); [apply res_post_refl; auto|]. destruct (off <? 0); [apply res_post_refl; auto|].
   match goal with |- context [match ?t with OK _ => _ | ER _ => _ | PANIC => _ | STUCK => _ end] => destruct t as [o|code| |] end;
     try (apply res_post_refl; auto); try exact I.
   destruct (dev_bind (v_m v) image res (a_mem (get_alloc v s)) o) as (m1 & code).
